@@ -379,6 +379,7 @@ def main(argv):
     t0 = time.time()
     nshards = max(1, min(args.shards, getattr(mod, "MAX_SHARDS", args.shards)))
     work = VERIF / ".work" / f"{pid}-{os.getpid()}"
+    replay_dir_tag = os.environ.get("VERIF_NO_EVIDENCE")
     work.mkdir(parents=True, exist_ok=True)
     procs = []
     for s in range(nshards):
@@ -439,7 +440,7 @@ def main(argv):
     min_nt = getattr(mod, "MIN_NONTRIVIAL", {"quick": 2, "thorough": 2})[args.tier]
     nt = len(merged["nontrivial_hashes"])
     merged_for_ev = dict(merged)
-    if merged["evaluations"] > 0 and nt >= 2:
+    if merged["evaluations"] > 0 and nt >= 2 and not os.environ.get("VERIF_NO_EVIDENCE"):
         write_evidence(mod, args.tier, seed, merged_for_ev, wall, len(violations))
     if herrors and rc == 0:
         for h in herrors[:3]:
